@@ -89,7 +89,7 @@ fn gen_c05(r: &mut Rng) -> Sess {
     }
     timeline.push((0, Act::Settle));
     Sess { items, timeline, init_query: r.pick(&["", "", "a", "ab"]).to_string(), exact: true, select1: false, exit0: false, sync: false,
-           header_lines: 0, no_clear_if_empty: false, delays: vec![], set_ops: false, end: 1 + r.below(9) as u8, preview_log: None, cmdq, tiebreak: None }
+           header_lines: 0, no_clear_if_empty: false, delays: vec![], set_ops: false, end: 1 + r.below(10) as u8, preview_log: None, cmdq, tiebreak: None }
 }
 
 fn gen_c13(r: &mut Rng) -> Sess {
@@ -128,6 +128,17 @@ fn gen(r: &mut Rng, focus: &str) -> Sess {
         return Sess { items, timeline: vec![(0, Act::Feed(n)), (0, Act::Eof)], init_query: r.pick(&["", "7", "i1"]).to_string(), exact: true, select1: false, exit0: false, sync: false,
                       header_lines: *r.pick(&[0usize, 0, 2]), no_clear_if_empty: false, delays: vec![("hb.stopped", 1, 700)], set_ops: false, end: 0,
                       preview_log: None, cmdq: None, tiebreak: None };
+    }
+    // the first complete result starts the interactive session; an edit afterwards leaves exactly one / no match: nothing fires any more
+    if c14 && r.chance(1, 8) {
+        let one_later = r.chance(1, 2);
+        let items: Vec<String> = vec!["ab0".to_string(), "ac1".to_string(), "cd2".to_string()];
+        let (q, edit, s1, e0) = if one_later { ("abx", Act::Back, true, r.chance(1, 3)) } else { ("a", Act::Add('x'), r.chance(1, 3), true) };
+        // with both options the first result must not fire either: "abx" (0 matches) fires exit-0, so keep to the option that stays silent
+        let (s1, e0) = if one_later { (s1, false) } else { (false, e0) };
+        return Sess { items, timeline: vec![(0, Act::Feed(3)), (0, Act::Eof), (0, Act::Settle), (*r.pick(&[0u64, 30]), edit), (0, Act::Settle)],
+                      init_query: q.to_string(), exact: true, select1: s1, exit0: e0, sync: r.chance(1, 4),
+                      header_lines: 0, no_clear_if_empty: false, delays: vec![], set_ops: false, end: 0, preview_log: None, cmdq: None, tiebreak: None };
     }
     // a source that has ended (often empty) before the first heartbeat looks at it: the result set is final with no matcher run at all
     if (c14 || focus == "C01") && r.chance(1, 10) {
@@ -527,6 +538,8 @@ fn run(s: &Sess) -> Outcome {
             // a chain: the conditional's own action must run before the rest of the chain
             if s.end == 8 { let _ = tx.send((Key::Ctrl('a'), Event::EvActAccept(None))); }
             if s.end == 9 { let _ = tx.send((Key::Ctrl('a'), Event::EvActAbort)); }
+            // type-ahead: Enter is already queued behind ctrl-d; an abort by ctrl-d on an empty line still comes first
+            if s.end == 10 { let _ = tx.send((Key::Enter, Event::EvActAccept(None))); }
             // a conditional whose condition is false ends nothing: Enter then accepts
             let t2 = Instant::now();
             while !th.is_finished() && t2.elapsed() < Duration::from_millis(400) { std::thread::sleep(Duration::from_millis(5)); }
@@ -1056,7 +1069,16 @@ fn run_case(seed: u64, id: u64, focus: &str, spec: Option<&String>, outdir: &std
     let s = match spec { Some(sp) => parse_spec(sp), None => if focus == "C20" { gen_c20(&mut r, outdir.join(format!("pv_{}.log", id)).to_string_lossy().to_string()) } else { gen(&mut r, focus) } };
     let input = spec_of(&s);
     if let Some(f) = &s.preview_log { let _ = std::fs::remove_file(f); }
-    let o = run(&s);
+    let mut o = run(&s);
+    // a stall is reported when the same session stalls again (one that does not recur is counted, not reported:
+    // the stalls the property is about are decided by the interleaving, which the delays of the session force again)
+    if o.stalled {
+        out.push(format!("{}\tdist\tstall-rerun", id));
+        if let Some(f) = &s.preview_log { let _ = std::fs::remove_file(f); }
+        let o2 = run(&s);
+        if !o2.stalled { out.push(format!("{}\tdist\tstall-not-reproduced", id)); }
+        o = o2;
+    }
     if std::env::var("SKV_TRACE").is_ok() { for t in &o.trace { eprintln!("{:?}", t); } eprintln!("output {:?}", o.output); }
     out.push(format!("{}\tdist\tkind=session", id));
     out.push(format!("{}\tdist\truns={}", id, 1 + s.timeline.iter().filter(|x| matches!(x.1, Act::Cmd)).count()));
@@ -1180,6 +1202,8 @@ fn run_case(seed: u64, id: u64, focus: &str, spec: Option<&String>, outdir: &std
             }
             if Some(k) == last_eof { ended = true; }
             if ended && !states.contains(&(q.clone(), rx)) { states.push((q.clone(), rx)); }
+            // once the session has settled after the end of the source the decision has been taken: later edits do not count
+            if ended && matches!(a, Act::Settle) { break; }
         }
         if states.is_empty() { states.push((q.clone(), rx)); }
         let mut why = Vec::new();
@@ -1200,6 +1224,13 @@ fn run_case(seed: u64, id: u64, focus: &str, spec: Option<&String>, outdir: &std
             let _ = last;
         }
         if !ok { bad = Some(why.join(" | ")); }
+        // "neither option fires later": after a decision point that started the interactive session no further one is reached
+        let decides: Vec<(usize, usize)> = o.trace.iter().filter(|e| e.1 == "s1.decide").map(|e| (e.2, e.3)).collect();
+        if let Some(k) = decides.iter().position(|d| !((d.1 == 1 && s.select1) || (d.1 == 0 && s.exit0))) {
+            if bad.is_none() && decides.len() > k + 1 {
+                bad = Some(format!("the decision point was reached again after the interactive session had started (list sizes at the decision points: {:?})", decides.iter().map(|d| d.1).collect::<Vec<_>>()));
+            }
+        }
     }
     if bad.is_none() && !o.auto && !s.set_ops && s.end == 0 && !has_append && s.preview_log.is_none() {
         if o.stalled { bad = Some("no quiescent state within 20 s of the last input (heartbeats stopped or never settle)".to_string()); }
